@@ -1,7 +1,240 @@
 (* Properties_C03.v -- property theorems only.  C03: the two micro-step engines are interchangeable. *)
-From V Require Import Base NameMatch Chart Exec Large LargeLemmas.
+From V Require Import Base NameMatch Chart Exec Large LargeLemmas Fast Interp Legal LegalRun WfCore LegalOracle
+     SelectConform MicroConform EngineEquivDone EngineEquivStep EngineEquivSelect EngineEquivRun EngineEquivMain
+     EngineEquivWitness.
 
 Theorem conflict_relation_symmetric :
   forall v c t1 t2, conflicts v c t1 t2 = conflicts v c t2 t1.
 Proof. exact conflicts_sym. Qed.
 Print Assumptions conflict_relation_symmetric.
+
+(* ---------------------------------------------------------------------------------------------------------
+   The two engine models: Fast.v (FastMicroStep::step) and Large.v (LargeMicroStep::step, repaired code
+   lg_fixed), over the same flat tables.  Reach of the theorems below: the history-free core (wf_coreb: states,
+   compounds, parallels, finals; no history / <initial> pseudo-states), all event histories, all datamodel
+   states, any number of steps (unbounded; by simulation).  Engine states are compared with lstate_eqv: every
+   field equal except _initializedData, which agrees on the states that have <data> (the fast engine also
+   records states without data, see fast_large_initialized_data_differs).  The execution state (trace, both
+   queues, datamodel) and the return code of step() are EQUAL.
+   Side conditions, all computable:
+     static   eq_chartb c = wf_coreb && root is a compound && leaf_okb (finals/atomic states have no child
+              states) && par_nonemptyb (every <parallel> has a child) && trans_tableb (a state's transition list
+              is the ascending list of the transitions it is the source of; transitions numbered in post-fix
+              order of their sources -- what LargeMicroStep::init builds);
+     dynamic  eq_guard_run / step_guardb, evaluated along the LARGE engine's run:
+              sel_guardb  -- when the large engine examines an active state in ancestor relation with the source
+                             of an already selected transition, every transition of that state is ruled out
+                             before its condition is evaluated, or its condition evaluates without error to
+                             false (C03-K1 is where this fails);
+              ms_guardb   -- for every <final> f entered in the microstep: below each <parallel> ancestor of f no
+                             state is entered after f, and at most one <parallel> ancestor of f is done (C03-K4
+                             is where this fails).
+   Not covered: history and <initial> pseudo-states, invocations, delayed sends; that trans_tableb holds for
+   every chart built by Chart.flatten is not proved here (it is a boolean the check evaluates per chart).
+   --------------------------------------------------------------------------------------------------------- *)
+
+(* (1) ESTABLISH_ENTRYSET: for every core chart, every legal configuration and every list of transitions with
+   active sources (no conflict-freeness needed), every history value and initial transition set, the fast
+   engine's descendant-bit-set loop computes the same pair of ascending lists as the large engine's loop *)
+Theorem fast_large_entry_set_equiv :
+  forall c cfg sel hist ts,
+    wf_coreb c = true -> legal_configb c cfg = true ->
+    (forall ti, In ti sel -> In (ft_source (tr c ti)) cfg) ->
+    fentry_set c cfg (sel_exitset c cfg sel) hist (sel_targets c sel) ts =
+    entry_set lg_fixed c cfg (sel_exitset c cfg sel) hist (sel_targets c sel) ts.
+Proof. exact fast_large_entry_set_equiv_lemma. Qed.
+Print Assumptions fast_large_entry_set_equiv.
+
+(* ... and for the initial step (empty configuration, target = the root's completion) *)
+Theorem fast_large_entry_set_equiv_initial :
+  forall c hist ts,
+    wf_coreb c = true -> fs_type (st c 0) = FCompound ->
+    fentry_set c [] [] hist (fs_completion (st c 0)) ts = entry_set lg_fixed c [] [] hist (fs_completion (st c 0)) ts.
+Proof. exact fast_large_entry_set_equiv_initial_lemma. Qed.
+Print Assumptions fast_large_entry_set_equiv_initial.
+
+(* (2) one microstep (REMEMBER_HISTORY .. ENTER_STATES) from the same conflict-free selection with active
+   sources, none of them a pseudo-state's default transition: related engine states, equal execution state.
+   Needs the dynamic done-event condition ms_guardb; does not cover charts with histories *)
+Theorem fast_large_microstep_equiv :
+  forall xv c lf ll x sel,
+    wf_coreb c = true -> leaf_okb c = true -> par_nonemptyb c = true ->
+    lstate_eqv c lf ll -> legal_configb c (l_cfg ll) = true -> ascb (l_cfg ll) = true ->
+    (forall ti, In ti sel -> In (ft_source (tr c ti)) (l_cfg ll)) -> pairwise_ok lg_fixed c sel ->
+    plain_transb c sel = true ->
+    ms_guardb c ll (sel_targets c sel) (sel_exitset c (l_cfg ll) sel) sel false = true ->
+    lstate_eqv c (fst (fmicrostep xv c lf x (sel_targets c sel) (sel_exitset c (l_cfg ll) sel) sel false))
+                 (fst (microstep lg_fixed xv c ll x (sel_targets c sel) (sel_exitset c (l_cfg ll) sel) sel false)) /\
+    snd (fmicrostep xv c lf x (sel_targets c sel) (sel_exitset c (l_cfg ll) sel) sel false) =
+    snd (microstep lg_fixed xv c ll x (sel_targets c sel) (sel_exitset c (l_cfg ll) sel) sel false).
+Proof. exact fast_large_microstep_equiv_lemma. Qed.
+Print Assumptions fast_large_microstep_equiv.
+
+(* the initial microstep *)
+Theorem fast_large_initial_microstep_equiv :
+  forall xv c lf ll x,
+    wf_coreb c = true -> leaf_okb c = true -> par_nonemptyb c = true -> fs_type (st c 0) = FCompound ->
+    lstate_eqv c lf ll -> l_cfg ll = [] ->
+    ms_guardb c ll (fs_completion (st c 0)) [] [] true = true ->
+    lstate_eqv c (fst (fmicrostep xv c lf x (fs_completion (st c 0)) [] [] true))
+                 (fst (microstep lg_fixed xv c ll x (fs_completion (st c 0)) [] [] true)) /\
+    snd (fmicrostep xv c lf x (fs_completion (st c 0)) [] [] true) =
+    snd (microstep lg_fixed xv c ll x (fs_completion (st c 0)) [] [] true).
+Proof. exact fast_large_initial_microstep_equiv_lemma. Qed.
+Print Assumptions fast_large_initial_microstep_equiv.
+
+(* a static condition that makes ms_guardb hold for every microstep: no <final> below a <parallel> *)
+Theorem done_guard_holds_without_final_below_parallel :
+  forall c l tg X ts ini, final_free_parb c = true -> ms_guardb c l tg X ts ini = true.
+Proof. exact ms_guard_static_lemma. Qed.
+Print Assumptions done_guard_holds_without_final_below_parallel.
+
+(* (3) SELECT_TRANSITIONS: the same list of selected transitions (in the same order: both end up ascending) and
+   the same execution state -- conditions may fail and raise error.execution, so the set and order of evaluated
+   conditions is part of the statement.  For every ascending configuration within range (legality not needed) *)
+Theorem fast_large_select_equiv :
+  forall c cfg ev x,
+    wf_coreb c = true -> trans_tableb c = true -> ascb cfg = true -> (forall s, In s cfg -> s < nstates c) ->
+    sel_guardb c cfg ev (cfg_postfix c cfg) None [] x = true ->
+    fselect c cfg ev (seq 0 (ntrans c)) [] x = select_loop lg_fixed c cfg ev (cfg_postfix c cfg) None [] x.
+Proof. exact fast_large_select_equiv_lemma. Qed.
+Print Assumptions fast_large_select_equiv.
+
+(* (4) one step(): selection given as a hypothesis ... *)
+Theorem fast_large_step_equiv_given_selection :
+  forall xv c lf ll x ev,
+    wf_coreb c = true -> leaf_okb c = true -> par_nonemptyb c = true ->
+    lstate_eqv c lf ll -> legal_configb c (l_cfg ll) = true -> ascb (l_cfg ll) = true ->
+    fselect c (l_cfg ll) ev (seq 0 (ntrans c)) [] x = select_loop lg_fixed c (l_cfg ll) ev (cfg_postfix c (l_cfg ll)) None [] x ->
+    (let '(sel, x1) := select_loop lg_fixed c (l_cfg ll) ev (cfg_postfix c (l_cfg ll)) None [] x in
+     match sel with [] => true | _ => ms_guardb c ll (sel_targets c sel) (sel_exitset c (l_cfg ll) sel) sel false end) = true ->
+    res_eqv c (fselect_and_step xv c lf x ev) (select_and_step lg_fixed xv c ll x ev).
+Proof. exact fast_large_step_equiv_given_selection_lemma. Qed.
+Print Assumptions fast_large_step_equiv_given_selection.
+
+(* ... and in full: every branch of step() (finished, top-level final, initial microstep, event-less selection,
+   internal / external dequeue, stable, idle, cancelled) *)
+Theorem fast_large_step_equiv :
+  forall xv c lf ll x,
+    eq_chartb c = true -> lstate_eqv c lf ll -> CfgOK c ll -> ascb (l_cfg ll) = true -> step_guardb c ll x = true ->
+    res_eqv c (fast_step xv c lf x) (large_step lg_fixed xv c ll x).
+Proof. exact fast_large_step_equiv_lemma. Qed.
+Print Assumptions fast_large_step_equiv.
+
+(* (5) whole runs of the driver loop from the pristine state: every event list, every bound on the number of
+   steps; the guard is computed along the large engine's run *)
+Theorem fast_large_run_equiv :
+  forall xv c fuel evs,
+    eq_chartb c = true -> eq_guard_run xv c fuel l_pristine x_init evs = true ->
+    lstate_eqv c (fst (run_loop c lstate (fast_step xv c) l_cfg fuel l_pristine x_init evs))
+                 (fst (run_loop c lstate (large_step lg_fixed xv c) l_cfg fuel l_pristine x_init evs)) /\
+    snd (run_loop c lstate (fast_step xv c) l_cfg fuel l_pristine x_init evs) =
+    snd (run_loop c lstate (large_step lg_fixed xv c) l_cfg fuel l_pristine x_init evs).
+Proof. exact fast_large_run_equiv_lemma. Qed.
+Print Assumptions fast_large_run_equiv.
+
+(* the observable behaviour of documents: same trace and same datamodel *)
+Theorem fast_large_trace_equiv :
+  forall xv late t evs fuel,
+    eq_chartb (flatten late t) = true -> eq_guard_run xv (flatten late t) fuel l_pristine x_init evs = true ->
+    run_fast xv late t evs fuel = run_large lg_fixed xv late t evs fuel.
+Proof. exact fast_large_trace_equiv_lemma. Qed.
+Print Assumptions fast_large_trace_equiv.
+
+(* (6) the fast engine's configurations are legal along guarded runs (from (5) and C02's run_always_legal) *)
+Theorem fast_run_always_legal_partial :
+  forall xv c fuel evs,
+    eq_chartb c = true -> eq_guard_run xv c fuel l_pristine x_init evs = true ->
+    CfgOK c (fst (run_loop c lstate (fast_step xv c) l_cfg fuel l_pristine x_init evs)).
+Proof. exact fast_run_always_legal_partial_lemma. Qed.
+Print Assumptions fast_run_always_legal_partial.
+
+(* non-vacuity: a chart with a <parallel>, nested compounds, <final>s in both regions, <data> with late binding,
+   conditions (one of them failing), target-less and done.state-triggered transitions satisfies all hypotheses
+   for a run that ends in the top-level <final>, and the theorem applies to it *)
+Theorem engine_equiv_hypotheses_satisfiable :
+  let c := flatten true ee_tree in
+  eq_chartb c = true /\ eq_guard_run ex_fixed c 40 l_pristine x_init ee_evs = true /\
+  l_fin (fst (run_loop c lstate (large_step lg_fixed ex_fixed c) l_cfg 40 l_pristine x_init ee_evs)) = true /\
+  In (TEv (s_done_state ++ state_name 2%N)) (fst (run_large lg_fixed ex_fixed true ee_tree ee_evs 40)) /\
+  In (TLog 6%Z) (fst (run_large lg_fixed ex_fixed true ee_tree ee_evs 40)).
+Proof. exact ee_tree_guarded. Qed.
+Print Assumptions engine_equiv_hypotheses_satisfiable.
+
+(* the selection guard cannot be dropped (known finding C03-K1): s3 (target-less transition on e) below s2 (no
+   transitions) below s1 (transition on e): the fast engine selects [0], the large engine [0; 1] *)
+Theorem fast_large_select_equiv_without_guard_refuted :
+  exists c cfg ev x,
+    wf_coreb c = true /\ trans_tableb c = true /\ legal_configb c cfg = true /\ ascb cfg = true /\
+    sel_guardb c cfg ev (cfg_postfix c cfg) None [] x = false /\
+    fst (fselect c cfg ev (seq 0 (ntrans c)) [] x) = [0] /\
+    fst (select_loop lg_fixed c cfg ev (cfg_postfix c cfg) None [] x) = [0; 1].
+Proof. exact select_equiv_without_guard_refuted_lemma. Qed.
+Print Assumptions fast_large_select_equiv_without_guard_refuted.
+
+(* the first half of the done-event guard cannot be dropped (C03-K4): entering a <parallel> whose two regions
+   start in <final>s, the fast engine raises done.state.<parallel> before the second region is entered; same
+   configuration, different execution state.  C01's static condition done_okb holds of the witness: no static
+   condition short of "no <final> below a <parallel>" helps *)
+Theorem fast_large_microstep_equiv_premature_done_refuted :
+  exists c l x sel,
+    wf_coreb c = true /\ leaf_okb c = true /\ par_nonemptyb c = true /\ done_okb c = true /\
+    legal_configb c (l_cfg l) = true /\ ascb (l_cfg l) = true /\
+    (forall ti, In ti sel -> In (ft_source (tr c ti)) (l_cfg l)) /\ pairwise_ok lg_fixed c sel /\ plain_transb c sel = true /\
+    ms_parts c l (sel_targets c sel) (sel_exitset c (l_cfg l) sel) sel false = (false, true) /\
+    l_cfg (fst (fmicrostep ex_fixed c l x (sel_targets c sel) (sel_exitset c (l_cfg l) sel) sel false)) =
+    l_cfg (fst (microstep lg_fixed ex_fixed c l x (sel_targets c sel) (sel_exitset c (l_cfg l) sel) sel false)) /\
+    snd (fmicrostep ex_fixed c l x (sel_targets c sel) (sel_exitset c (l_cfg l) sel) sel false) <>
+    snd (microstep lg_fixed ex_fixed c l x (sel_targets c sel) (sel_exitset c (l_cfg l) sel) sel false).
+Proof. exact microstep_equiv_premature_done_refuted_lemma. Qed.
+Print Assumptions fast_large_microstep_equiv_premature_done_refuted.
+
+(* the second half cannot be dropped: nested <parallel>s completed by one <final>: the fast engine raises the
+   outer done.state first, the large engine the inner one (ms_parts = the two halves of ms_guardb) *)
+Theorem fast_large_microstep_equiv_nested_done_order_refuted :
+  exists c l x sel,
+    wf_coreb c = true /\ leaf_okb c = true /\ par_nonemptyb c = true /\
+    legal_configb c (l_cfg l) = true /\ ascb (l_cfg l) = true /\
+    (forall ti, In ti sel -> In (ft_source (tr c ti)) (l_cfg l)) /\ pairwise_ok lg_fixed c sel /\ plain_transb c sel = true /\
+    ms_parts c l (sel_targets c sel) (sel_exitset c (l_cfg l) sel) sel false = (true, false) /\
+    map ev_name (x_iq (snd (fmicrostep ex_fixed c l x (sel_targets c sel) (sel_exitset c (l_cfg l) sel) sel false))) =
+      [s_done_state ++ state_name 4%N; s_done_state ++ state_name 1%N; s_done_state ++ state_name 3%N] /\
+    map ev_name (x_iq (snd (microstep lg_fixed ex_fixed c l x (sel_targets c sel) (sel_exitset c (l_cfg l) sel) sel false))) =
+      [s_done_state ++ state_name 4%N; s_done_state ++ state_name 3%N; s_done_state ++ state_name 1%N].
+Proof. exact microstep_equiv_nested_done_order_refuted_lemma. Qed.
+Print Assumptions fast_large_microstep_equiv_nested_done_order_refuted.
+
+Theorem ms_guard_is_its_two_halves :
+  forall c l tg X ts ini, ms_guardb c l tg X ts ini = fst (ms_parts c l tg X ts ini) && snd (ms_parts c l tg X ts ini).
+Proof. exact ms_parts_spec. Qed.
+Print Assumptions ms_guard_is_its_two_halves.
+
+(* the three deviations are visible in the traces of whole runs of documents that pass all static conditions *)
+Theorem fast_large_run_equiv_without_guard_refuted :
+  forall t, In t [k1_tree; k4_tree; nest_tree] ->
+    let c := flatten false t in
+    eq_chartb c = true /\ eq_guard_run ex_fixed c 12 l_pristine x_init [[101%N]] = false /\
+    run_fast ex_fixed false t [[101%N]] 12 <> run_large lg_fixed ex_fixed false t [[101%N]] 12.
+Proof. exact run_equiv_without_guard_refuted_lemma. Qed.
+Print Assumptions fast_large_run_equiv_without_guard_refuted.
+
+(* par_nonemptyb cannot be dropped: with a child-less <parallel> inside a region the dynamic guard holds and the
+   traces differ (the large engine raises done.state for the enclosing <parallel>, the fast engine does not) *)
+Theorem fast_large_run_equiv_childless_parallel_refuted :
+  exists t evs fuel,
+    let c := flatten false t in
+    wf_coreb c = true /\ fs_type (st c 0) = FCompound /\ leaf_okb c = true /\ trans_tableb c = true /\ par_nonemptyb c = false /\
+    eq_guard_run ex_fixed c fuel l_pristine x_init evs = true /\
+    run_fast ex_fixed false t evs fuel <> run_large lg_fixed ex_fixed false t evs fuel.
+Proof. exact run_equiv_childless_parallel_refuted_lemma. Qed.
+Print Assumptions fast_large_run_equiv_childless_parallel_refuted.
+
+(* literal equality of the engine states is false: _initializedData of the fast engine lists every entered
+   state, that of the large engine only states with <data> *)
+Theorem fast_large_initialized_data_differs :
+  exists c,
+    eq_chartb c = true /\ ms_guardb c l_pristine (fs_completion (st c 0)) [] [] true = true /\
+    l_initd (fst (fmicrostep ex_fixed c l_pristine x_init (fs_completion (st c 0)) [] [] true)) = [0; 1] /\
+    l_initd (fst (microstep lg_fixed ex_fixed c l_pristine x_init (fs_completion (st c 0)) [] [] true)) = [].
+Proof. exact microstep_literal_equality_refuted_lemma. Qed.
+Print Assumptions fast_large_initialized_data_differs.
